@@ -820,7 +820,7 @@ def histories_for(ctx):
     ctx.cov["exhaustive_scope"] = scope
 
     # 2. valid (and leniently invalid) documents, with comments for strip
-    ndocs = 8000 if quick else 150000
+    ndocs = 8000 if quick else 320000
     docs = gen_documents(rng, ndocs)
     lines = []
     for plain, commented in docs:
@@ -830,7 +830,7 @@ def histories_for(ctx):
             lines.append("parse " + hx(commented))
         if rng.random() < 0.15:
             lines.append("strip " + hx(plain))
-    lines += ["strip " + hx(gen_strip_fuzz(rng)) for _ in range(12000 if quick else 300000)]
+    lines += ["strip " + hx(gen_strip_fuzz(rng)) for _ in range(12000 if quick else 600000)]
     counts["documents"] = len(lines)
     doc_h = group([l for l in lines if len(l) < MAXLINE], 6)
 
@@ -840,7 +840,7 @@ def histories_for(ctx):
         for p in prefixes(d):
             lines.append("parse " + hx(p))
             lines.append("strip " + hx(p))
-    nmut = 20000 if quick else 500000
+    nmut = 20000 if quick else 1100000
     short = [d for d in docs if len(d[0]) <= 40]
     for plain, commented in rng.sample(short, min(len(short), 100 if quick else 1500)):
         lines += ["parse " + hx(p) for p in prefixes(plain)]
@@ -852,13 +852,13 @@ def histories_for(ctx):
             lines.append("parse " + hx(mutate(rng, plain)))
         else:
             lines.append("strip " + hx(mutate(rng, commented)))
-    lines += ["parse " + hx(gen_parse_fuzz(rng)) for _ in range(10000 if quick else 250000)]
+    lines += ["parse " + hx(gen_parse_fuzz(rng)) for _ in range(10000 if quick else 550000)]
     counts["mutations"] = len(lines)
     mut_h = group([l for l in lines if len(l) < MAXLINE], 6)
 
     # 4. value trees
     lines = []
-    for _ in range(8000 if quick else 150000):
+    for _ in range(8000 if quick else 320000):
         d = dump(gen_tree(rng, rng.choice([0, 1, 2, 3, 4, 5, 6])))
         lines.append("tostr " + d)
         lines.append("rt " + d)
